@@ -457,8 +457,8 @@ pub fn def() -> PropDef {
         abort_possible: false,
         parts: |tier| {
             vec![
-                part("sender", tier.pick(600, 20_000), (any::<bool>(), proptest::collection::vec(prop_oneof![0u32..400, 8000u32..40_000], 1..20)).prop_map(|(server_writer, sizes)| SendCase { server_writer, sizes }), sender),
-                part("receiver", tier.pick(2_500, 80_000), (any::<bool>(), proptest::collection::vec(unit(), 1..10), prop_oneof![3 => Just(None), 1 => (0u8..14).prop_map(Some)]).prop_map(|(client_receiver, units, near_wrap)| RecvCase { client_receiver, units, near_wrap }), receiver),
+                part("sender", tier.pick(600, 80_000), (any::<bool>(), proptest::collection::vec(prop_oneof![0u32..400, 8000u32..40_000], 1..20)).prop_map(|(server_writer, sizes)| SendCase { server_writer, sizes }), sender),
+                part("receiver", tier.pick(2_500, 320_000), (any::<bool>(), proptest::collection::vec(unit(), 1..10), prop_oneof![3 => Just(None), 1 => (0u8..14).prop_map(Some)]).prop_map(|(client_receiver, units, near_wrap)| RecvCase { client_receiver, units, near_wrap }), receiver),
             ]
         },
     }
